@@ -12,8 +12,10 @@ import (
 	"path/filepath"
 	"regexp"
 	"runtime"
+	"runtime/debug"
 	"sort"
 	"strconv"
+	"strings"
 	"sync"
 	"time"
 )
@@ -75,8 +77,13 @@ type Run struct {
 }
 
 // Start parses the command line of a check binary: `<bin> quick|thorough` or `<bin> --replay path`.
+// current is the run of this process: a panic that escapes into a Parallel worker (the code under check
+// panicked where the check did not expect it) is reported through it as a violation, not as a crash.
+var current *Run
+
 func Start(prop string) *Run {
 	r := &Run{Prop: prop, Tier: "quick", start: time.Now(), cov: map[string]any{}, known: map[string]finding{}, maxSamples: 12}
+	current = r
 	fs := flag.NewFlagSet(prop, flag.ExitOnError)
 	replay := fs.String("replay", "", "replay file")
 	budget := fs.Duration("budget", 0, "wall-clock budget after which the run stops and reports exhaustive:false")
@@ -456,7 +463,7 @@ func Parallel(n int, fn func(i int)) {
 	}
 	if w <= 1 {
 		for i := 0; i < n; i++ {
-			fn(i)
+			guarded(fn, i)
 		}
 		return
 	}
@@ -475,11 +482,27 @@ func Parallel(n int, fn func(i int)) {
 				if i >= n {
 					return
 				}
-				fn(i)
+				guarded(fn, i)
 			}
 		}()
 	}
 	wg.Wait()
+}
+
+func guarded(fn func(i int), i int) {
+	defer func() {
+		if p := recover(); p != nil {
+			if current == nil {
+				panic(p)
+			}
+			st := string(debug.Stack())
+			if lines := strings.Split(st, "\n"); len(lines) > 24 {
+				st = strings.Join(lines[:24], "\n")
+			}
+			current.Violate(Violation{Signature: "panic/unguarded", Detail: fmt.Sprintf("panic in work item %d: %v\n%s", i, p, st), Replay: map[string]any{"mode": "panic", "item": i}})
+		}
+	}()
+	fn(i)
 }
 
 // Catch runs f and returns the recovered panic value (nil if none).
